@@ -211,6 +211,7 @@ type c05Exported struct {
 	gates        int
 	ssaText      string
 	constsTabled bool
+	cacheHits    int
 	untabled     []string
 	outBits      []int
 	n0, n1       int
@@ -270,6 +271,7 @@ func c05Export(src string, sizes [][]int) (ex *c05Exported, err error) {
 
 	calloc := circuits.NewAllocator()
 	cache := map[string]int{}
+	keyIDs := map[string]int{}
 	circIdx := map[*circuit.Circuit]int{}
 	var circs []SX
 	// ni/no: number of input/output wires as the streamer uses the circuit
@@ -340,6 +342,7 @@ func c05Export(src string, sizes [][]int) (ex *c05Exported, err error) {
 			info.outs = append(info.outs, keys.num(r))
 		}
 		ci := 0
+		keyID, hit := 0, false
 		switch {
 		case c05IsAliasOp(instr.Op):
 			ex.nAlias++
@@ -360,8 +363,16 @@ func c05Export(src string, sizes [][]int) (ex *c05Exported, err error) {
 			ci = idx
 			ex.nCirc++
 		default:
+			// the cache key exactly as Program.Stream computes it
 			key := instr.StringTyped()
 			idx, ok := cache[key]
+			hit = ok
+			if id, seen := keyIDs[key]; seen {
+				keyID = id
+			} else {
+				keyID = len(keyIDs) + 1
+				keyIDs[key] = keyID
+			}
 			if !ok {
 				c, cacheable, err := c05StepCircuit(params, calloc, instr)
 				if err != nil {
@@ -374,12 +385,17 @@ func c05Export(src string, sizes [][]int) (ex *c05Exported, err error) {
 				idx = addCirc(c, ni, int(instr.Out.Type.Bits), nil, nil)
 				if cacheable {
 					cache[key] = idx
+				} else {
+					keyID = 0 // bts/btc: compiled every time, never cached
 				}
 			}
 			ci = idx
 			ex.nCirc++
 		}
-		steps = append(steps, L(I(int(instr.Op)), L(ins...), out, L(rets...), I(ci)))
+		steps = append(steps, L(I(int(instr.Op)), L(ins...), out, L(rets...), I(ci), I(keyID), Bool(hit)))
+		if hit {
+			ex.cacheHits++
+		}
 		listing = append(listing, I(orig))
 		orig++
 		infos = append(infos, info)
